@@ -108,11 +108,12 @@ func ParseHeaderDirective(header http.Header) *HeaderDirectives {
 			}
 		case "Cache-Control":
 			// Several Cache-Control lines are one comma-separated list (RFC 9110 section 5.3)
-			if cc, err := parseCacheControl(strings.Join(values, ",")); err == nil {
-				hd.CacheControl.value = typeutils.Some(cc)
-			} else {
+			cc, err := parseCacheControl(strings.Join(values, ","))
+			if err != nil {
+				// cc still carries the directives that could be parsed and forbids caching
 				slog.Debug("Error parsing Cache-Control header", "error", err, "value", value)
 			}
+			hd.CacheControl.value = typeutils.Some(cc)
 		case "Expires":
 			if t, err := time.Parse(http.TimeFormat, value); err == nil {
 				hd.Expires.value = typeutils.Some(t)
